@@ -400,8 +400,30 @@ func registerLib(e *Engine) {
 		s.held = "false"
 		return nil
 	}
-	for _, n := range []string{"(*sync.WaitGroup).Add", "(*sync.WaitGroup).Done", "(*sync.WaitGroup).Wait"} {
-		L[n] = func(s *State, site ssa.Instruction, args []Val) []Val { return nil }
+	// WaitGroup: goroutines joined by a WaitGroup are executed at their spawn point, so the counter is an exact
+	// ghost: every Add must have been matched by a Done when Wait is reached (else Wait blocks forever), and a
+	// loop iteration must leave it unchanged (checked at the back edge)
+	wgKey := func(args []Val) string { return "wg|" + args[0].S }
+	wgGet := func(s *State, k string) string {
+		if v, ok := s.ghost[k]; ok {
+			return v.S
+		}
+		return "0"
+	}
+	L["(*sync.WaitGroup).Add"] = func(s *State, site ssa.Instruction, args []Val) []Val {
+		k := wgKey(args)
+		s.ghost[k] = Val{T: intT, S: addT(wgGet(s, k), args[1].S)}
+		return nil
+	}
+	L["(*sync.WaitGroup).Done"] = func(s *State, site ssa.Instruction, args []Val) []Val {
+		k := wgKey(args)
+		s.ghost[k] = Val{T: intT, S: subT(wgGet(s, k), "1")}
+		return nil
+	}
+	L["(*sync.WaitGroup).Wait"] = func(s *State, site ssa.Instruction, args []Val) []Val {
+		k := wgKey(args)
+		s.oblige("wg-balance", site, s.c.ordinal(site, "wg-balance"), eq(wgGet(s, k), "0"), "WaitGroup counter is not zero at Wait: some path through a joined goroutine (or the spawner) skips Done, so Wait blocks forever", false)
+		return nil
 	}
 	registerStrings(e)
 }
